@@ -10,6 +10,7 @@ import (
 	"os"
 	"path"
 	"strconv"
+	"strings"
 
 	"codeberg.org/anaseto/gofrundis/ast"
 	"codeberg.org/anaseto/gofrundis/frundis"
@@ -347,6 +348,11 @@ func (exp *exporter) CheckParamAssignement(param string, value string) bool {
 			ctx.Error("epub-version parameter should be 2 or 3 but got ", value)
 			return false
 		}
+	case "xhtml-chap-prefix":
+		if strings.ContainsRune(value, '/') {
+			ctx.Error("xhtml-chap-prefix parameter cannot contain a path separator:", value)
+			return false
+		}
 	case "xhtml-version":
 		if value != "4" && value != "5" {
 			ctx.Error("xhtml-version parameter should be 4 or 5 but got ", value)
@@ -538,11 +544,6 @@ func (exp *exporter) GenRef(prefix string, id string, hasfile bool) string {
 	if !ok {
 		fprefix = "body"
 	}
-	idText := ""
-	useID, ok := ctx.Params["xhtml-chap-custom-filenames"]
-	if ok && (useID != "" && useID != "0") {
-		idText = ctx.ID
-	}
 	var href string
 	switch {
 	case exp.AllInOneFile:
@@ -554,12 +555,7 @@ func (exp *exporter) GenRef(prefix string, id string, hasfile bool) string {
 		} else {
 			suffix = ".html"
 		}
-		var chapname string
-		if idText != "" {
-			chapname = idText
-		} else {
-			chapname = fmt.Sprintf("%d-%02d", toc.PartCount, toc.ChapterCount)
-		}
+		chapname := exp.chapName()
 		if hasfile {
 			href = fmt.Sprintf("%s-%s%s", fprefix, chapname, suffix)
 		} else if toc.PartCount > 0 || toc.ChapterCount > 0 {
